@@ -18,3 +18,4 @@ PROP = {'engine': 'stack',
  'level_note': 'orders are at the granularity of whole API calls; one generation only',
  'technique': 'property-based testing (rapid): generated schedules (linear extensions enforced by latches), history invariant effect-vs-issue'}
 PROP['rule'] += ' Round-4 addition: entries of the extensions directory may also be named pipes, unix sockets and symlinks without a target: everything that is not a directory is launched.'
+PROP['rule'] += " Round-6 addition (a quarter of the cases): the judged initialisation is that of a second execution environment - a first one with the same extensions initialised completely and lost its runtime in its first invocation; the second is started inside the judged invocation (INV first in the order) and every rule is applied to what happens after the first environment's answer."
